@@ -9,7 +9,7 @@ import (
 // runRowQuery executes a non-aggregating query on one row through EmitSync.
 // ok=false when Execute failed.
 func runRowQuery(sql string, row map[string]interface{}) (out map[string]interface{}, execErr error, emitErr error) {
-	s := streamsql.New(streamsql.WithDiscardLog())
+	s := streamsql.New(presetOpt(), streamsql.WithDiscardLog())
 	defer s.Stop()
 	if err := s.Execute(sql); err != nil {
 		return nil, err, nil
@@ -26,7 +26,7 @@ func runBatches(sql string, rows []map[string]interface{}, want int, settle time
 
 // runBatchesUntil collects sink deliveries until done(got) or the settle timeout.
 func runBatchesUntil(sql string, rows []map[string]interface{}, done func([][]map[string]interface{}) bool, settle time.Duration) ([][]map[string]interface{}, error) {
-	s := streamsql.New(streamsql.WithDiscardLog())
+	s := streamsql.New(presetOpt(), streamsql.WithDiscardLog())
 	defer s.Stop()
 	if err := s.Execute(sql); err != nil {
 		return nil, err
